@@ -401,9 +401,11 @@ def handle (a : Args) : String :=
     let model := (dilateModel dt A sup).toList
     let fast := if dt.isBool && shape.length == 2 then (fastDilate A bshape bc).toList else model
     let loops := if dt.isBool && shape.length == 2 then (fastDilateLoops A bshape bc).toList else model
-    let regular := starShaped bshape (members.map (·.1)) && flatHeights (members.map (·.2)) || starMonotone bshape members
+    let flat := starShaped bshape (members.map (·.1)) && flatHeights (members.map (·.2))
+    let regular := flat || starMonotone bshape members
     let obs := (allPos shape).map fun q => regular || boxInterior shape bshape q
-    s!"spec={showInts spec} model={showInts model} fast={showInts fast} loops={showInts loops} obs={showBools obs}{disp dilateDispatch}"
+    let cls := if flat then "flat" else if regular then "monotone" else "none"
+    s!"spec={showInts spec} model={showInts model} fast={showInts fast} loops={showInts loops} obs={showBools obs} cls={cls}{disp dilateDispatch}"
   | "getse" => s!"ok=1 bshape={showNats bshape} elem={showInts bc.toList}"
   | "cross" => s!"elem={showInts (crossElem (a.nat "d") (a.int "r")).toList}"
   | "disk" => s!"elem={showInts (diskElem (a.nat "d") (a.nat "r")).toList}"
